@@ -107,6 +107,14 @@ Section Facts.
   Lemma consistent_rewire h c : consistent h (rewire h c).
   Proof. repeat split; reflexivity. Qed.
 
+  (* writing the new datum into the existing functors keeps them the wiring of the chemical's own inputs *)
+  Lemma consistent_patch h c f :
+    consistent h c -> consistent h (patch Cc Hc Sc (set_sc Cc Hc Sc c (f (c_sc _ _ _ c))) f).
+  Proof.
+    intros (A & B & N). repeat split; simpl; auto.
+    rewrite B. reflexivity.
+  Qed.
+
   Lemma consistent_heap_ext h h' c :
     hget h' (c_cn _ _ _ c) = hget h (c_cn _ _ _ c) -> consistent h c -> consistent h' c.
   Proof.
@@ -225,8 +233,13 @@ Section Facts.
       unfold phase_ref_setter_rebuilds, rewire_if. apply (inv_replace_same h cs i c); auto. apply consistent_rewire.
     - (* Tm / Tb / Hfus / Sfus / S0 setters *)
       destruct (nth_error cs i) as [c|] eqn:Hi; [|exact I]. simpl.
-      destruct w; unfold setter_rewires, Tm_setter_rebuilds, Tb_setter_rebuilds, Hfus_setter_patches, Sfus_setter_patches, S0_setter_patches, rewire_if;
-        apply (inv_replace_same h cs i c); auto; apply consistent_rewire.
+      assert (Cc0 : consistent h c) by (rewrite Forall_forall in F; apply F; eapply in_nth_error; eauto).
+      destruct w; unfold setter_rewires, setter_patches_in_place, Tm_setter_rebuilds, Tb_setter_rebuilds, Hfus_setter_patches,
+        Sfus_setter_patches, S0_setter_patches;
+        try (apply (inv_replace_same h cs i c); auto; apply consistent_rewire);
+        (destruct energy_constant_creates_new_functors; simpl;
+         [apply (inv_replace_same h cs i c); auto; apply consistent_rewire
+         |apply (inv_replace_same h cs i c); auto; apply consistent_patch; exact Cc0]).
   Qed.
 
   Lemma run_inv ops : forall s, inv s -> inv (run s ops).
@@ -241,6 +254,19 @@ Section Facts.
     w_cn _ _ _ c = c_cn _ _ _ c /\ w_in _ _ _ c = current (fst (run s ops)) c /\ w_narrow _ _ _ c = None.
   Proof.
     intros I Hin. destruct (run_inv ops s I) as [_ F]. rewrite Forall_forall in F. exact (F c Hin).
+  Qed.
+
+  (* the S0 / Hfus / Sfus setters keep the functor OBJECTS of every chemical (they patch them in place), so whoever
+     holds those objects -- an existing property package -- sees the new datum *)
+  Lemma constant_setters_keep_functor_objects s i w f :
+    w = WHfus \/ w = WSfus \/ w = WS0 ->
+    map (w_ver Cc Hc Sc) (snd (step s (OSetSc Cc Hc Sc i w f))) = map (w_ver Cc Hc Sc) (snd s).
+  Proof.
+    intros Hw. destruct s as [h cs]. unfold Rewire.step, on_chem. simpl.
+    destruct (nth_error cs i) as [c|] eqn:Hi; [|reflexivity]. simpl.
+    apply (map_upd_same _ _ _ _ _ Hi).
+    destruct Hw as [E|[E|E]]; subst w; unfold setter_rewires, setter_patches_in_place, Hfus_setter_patches, Sfus_setter_patches,
+      S0_setter_patches, energy_constant_creates_new_functors; reflexivity.
   Qed.
 
   (* freshly constructed chemicals at distinct addresses satisfy the invariant *)
